@@ -107,6 +107,15 @@ CHECKS = {
         "and the three local index columns agree; mutators through views touch exactly the rows in view.",
    note=TRUST + "The model is hand-written; pandas/numpy primitives (isin, rank(method='dense'), unique, intersect1d, digitize) are restated in it. "
         "Known finding N8 (channel/synapse view of a view without that channel returns the whole view); N2 (loc('all')) was fixed."),
+ "C20": dict(cat="proof", ref="DESIGN.md §4 C20",
+   technique="Lean 4 theorems on the builders' index arithmetic for every sampling outcome + recorded-draw correspondence with the real builders",
+   text="Model with the sampler's outcome as an argument. Theorems for all population sizes and all draws: synapse number a*npost+b of "
+        "fully_connect goes from the site of pre cell a to the a-th sample of post cell b (so exactly one synapse per pair, equal or "
+        "unequal sizes); np.where enumerates exactly the True entries without repetition; matrix/sparse builders create one synapse "
+        "per entry / drawn pair for every count incl. 0 and 1, starting at the drawn pre cell's site. The real builders are run with the "
+        "pandas/numpy samplers wrapped (draws recorded), edges compared with the model, and pair sets, sites, row indices, types and "
+        "locs checked on the implementation, with the binomial forced to 0, 1, 2.",
+   note=TRUST + "pandas groupby(...).sample ordering (post-cell major) is observed, not proved. Fixed: F7, F8, N9."),
 }
 
 def main():
